@@ -66,6 +66,19 @@ def check_kw(case, stats):
         if node["keyword"] != want_kw or node["name"] != name or node["location"]["column"] != len(ind) + 1:
             raise Violation(case, "%s line %r: AST says keyword %r name %r column %r; expected keyword %r name %r column %d" % (
                 cat, line, node["keyword"], node["name"], node["location"]["column"], want_kw, name, len(ind) + 1))
+        if lay == 0:
+            # keyword and colon alone (no name) as the very last line, with and without a final line break
+            for end in ("\n", "", " "):
+                text = "\n".join(pre + body[:-1] + [ind + kw + ":"]) + end
+                r = gh.parse(text, dflt)
+                node = r[1]["feature"] if r[0] == "ok" else None
+                try:
+                    for p in path:
+                        node = node[p]
+                except (KeyError, IndexError, TypeError):
+                    node = None
+                if not node or node["keyword"] != first_title(d, cats, kw + ":") or node["name"] != "":
+                    raise Violation(case, "%s keyword %r of %s alone on the last line (document ends with %r): %r\n%r" % (cat, kw, d, end, r[1][:2] if r[0] != "ok" else node, text))
     else:
         # layout 1 / 2: the step text starts with a combining mark (it belongs to the text, the keyword is still a prefix of the line)
         line = kw + ["text", "\u0301text", "\u3099\u094dtext"][lay] + trail
@@ -84,6 +97,16 @@ def check_kw(case, stats):
                 line, d, (s["keyword"], s["keywordType"], s["text"]), (want_kw, want_type, want_text)))
         if r[1]["feature"]["language"] != d:
             raise Violation(case, "feature reports language %r, dialect in force is %r" % (r[1]["feature"]["language"], d))
+        if lay == 0:
+            # the keyword alone (a step without text) as the very last line, with and without a final line break
+            bk, bt = expected_step(d, kw)
+            for end in ("\n", "", " ", "\r\n"):
+                text = "\n".join(pre + [F + ":", " " + SC + ":", ind + kw]) + end
+                r = gh.parse(text, dflt)
+                steps = r[1]["feature"]["children"][0]["scenario"]["steps"] if r[0] == "ok" and r[1]["feature"]["children"] else None
+                if not steps or len(steps) != 1 or (steps[0]["keyword"], steps[0]["keywordType"], steps[0]["text"]) != (bk, bt, trim(kw[len(bk):])):
+                    raise Violation(case, "step keyword %r of %s alone on the last line (document ends with %r): %r, expected one step (%r, %r, %r)\n%r" % (
+                        kw, d, end, r[1][:2] if r[0] != "ok" else [(x["keyword"], x["keywordType"], x["text"]) for x in steps or []] or "no step", bk, bt, trim(kw[len(bk):]), text))
 
 
 def unit_positive(a):
